@@ -310,6 +310,7 @@ type VC struct {
 	notes     []string
 	bounded   []Term // stack of bound variable names (informational)
 	defs      map[string]string
+	asserted  map[string]int
 	lets      map[string][]letDef // binder name -> let definitions made inside it
 	binders   []string            // stack of open binders
 }
@@ -456,10 +457,18 @@ func mangle(s string) string {
 
 // typeKey is a stable identity string for a Go type (short package names are
 // not enough: full paths are used).
-func typeKey(t types.Type) string { return types.TypeString(t, nil) }
+func canonType(t types.Type) types.Type {
+	t = types.Unalias(t)
+	if it, ok := t.(*types.Interface); ok && it.NumMethods() == 0 && it.NumEmbeddeds() == 0 {
+		return types.Universe.Lookup("any").Type()
+	}
+	return t
+}
+
+func typeKey(t types.Type) string { return types.TypeString(canonType(t), nil) }
 
 func shortTypeKey(t types.Type) string {
-	return types.TypeString(t, func(p *types.Package) string { return p.Name() })
+	return types.TypeString(canonType(t), func(p *types.Package) string { return p.Name() })
 }
 
 func (vc *VC) fresh(prefix string, s Sort) Term {
@@ -488,6 +497,15 @@ func (vc *VC) assert(t Term) {
 	if vc.noName > 0 {
 		panic(engErr("internal: assertion inside binder"))
 	}
+	// identical facts are asserted once (a fact stays valid: assertions are never retracted,
+	// except by the loop dry run, which clears this memo when it truncates)
+	if vc.asserted == nil {
+		vc.asserted = map[string]int{}
+	}
+	if at, ok := vc.asserted[t.S]; ok && at < len(vc.asserts) && vc.asserts[at] == t.S {
+		return
+	}
+	vc.asserted[t.S] = len(vc.asserts)
 	vc.asserts = append(vc.asserts, t.S)
 }
 
@@ -666,6 +684,18 @@ func (vc *VC) typeID(t types.Type) Term {
 		id = len(vc.typeIDs) + 1
 		vc.typeIDs[k] = id
 		vc.typeByID[id] = t
+		// isref(typeid): values of this dynamic type are references (payload = the reference)
+		vc.declareFun("isref", []Sort{SInt}, SBool)
+		isRef := false
+		switch types.Unalias(t).Underlying().(type) {
+		case *types.Pointer, *types.Map, *types.Chan, *types.Signature:
+			isRef = true
+		}
+		if isRef {
+			vc.decls = append(vc.decls, fmt.Sprintf("(assert (isref %d))", id))
+		} else {
+			vc.decls = append(vc.decls, fmt.Sprintf("(assert (not (isref %d)))", id))
+		}
 	}
 	return intLit(int64(id))
 }
